@@ -264,8 +264,10 @@ pub fn run(tier: Tier) -> i32 {
             docs.push((format!("c16-link/{n}"), MetadataWrapper::Link(l)));
         }
     }
-    for (n, l) in crate::props::c16::layouts(false).into_iter().filter(|(n, _)| !n.starts_with("field:")).step_by(if tier.thorough() { 1 } else { 4 }) {
-        docs.push((format!("c16-layout/{n}"), MetadataWrapper::Layout(l)));
+    for (i, (n, l)) in crate::props::c16::layouts(false).into_iter().filter(|(n, _)| !n.starts_with("field:")).enumerate() {
+        if tier.thorough() || i % 4 == 0 || n.starts_with("keys:") {
+            docs.push((format!("c16-layout/{n}"), MetadataWrapper::Layout(l)));
+        }
     }
     let ed = keys::get("ed1");
     let accs = util::par_fold(&docs, Acc::new, |acc, i, (d, meta)| {
